@@ -101,6 +101,7 @@ def soak_worker(args):
     d = dist.dimensions
     tmp = tempfile.mkdtemp(prefix="hmcverif_soak_")
     out = np.empty((nruns, d))
+    out_long = np.empty((nruns, 2 * d))
     try:
         fn = os.path.join(tmp, "s.npy")
         for r in range(nruns):
@@ -116,10 +117,17 @@ def soak_worker(args):
             with quiet(), np.errstate(all="ignore"):
                 s.sample(fn, dist, initial_model=x0.reshape(-1, 1), proposals=cfg["K"], overwrite_existing_file=True,
                          disable_progressbar=True, **kw)
+            if cfg.get("long"):
+                # started from an exact draw, every state of the run has the target's law if the kernel leaves it invariant:
+                # the run's averages of x and x^2 are unbiased, and runs are independent
+                arr = np.load(fn)[:, :d] if fn.endswith(".npy") else None
+                states = np.asarray(arr, dtype=float)
+                out_long[r, :d] = states.mean(0)
+                out_long[r, d:] = (states ** 2).mean(0)
             out[r] = np.array(s.current_model, dtype=float).ravel()
     finally:
         shutil.rmtree(tmp, ignore_errors=True)
-    return out
+    return out_long if cfg.get("long") else out
 
 
 def mass_of(cfg, MM, d):
@@ -235,31 +243,48 @@ def soak_configs(rnd, thorough):
         cfgs.append(dict(tg, sampler="RWMH", h=0.8, K=4))
         cfgs.append(dict(tg, sampler="RWMH", h=1.0, vector=[0.5, 1.2, 0.9][:d], K=4))
     rnd.shuffle(cfgs)
-    return cfgs if thorough else cfgs[:10]
+    if not thorough:
+        return cfgs[:10]
+    # long runs from exact draws (every state of such a run has the target's law): far more sensitive to a small stationary bias
+    trunc = targets[4]
+    longs = [dict(trunc, sampler="HMC", integrator=i, mass="diag", randomize=r, h=0.9, n=6, K=400, long=True, runs=640, massdiag=[0.5, 2.0], massfull=None)
+             for i, r in (("lf", False), ("3s", True), ("4s", False))]
+    longs.append(dict(targets[0], sampler="HMC", integrator="lf", mass="full", randomize=True, h=0.35, n=4, K=400, long=True, runs=640,
+                      massdiag=[0.5, 2.0], massfull=(np.eye(2) * 1.5 + 0.4).tolist()))
+    longs.append(dict(targets[2], sampler="HMC", integrator="3s", mass="unit", randomize=False, h=0.35, n=4, K=400, long=True, runs=640, massdiag=[0.5, 2.0], massfull=None))
+    longs.append(dict(targets[3], sampler="HMC", integrator="4s", mass="diag", randomize=True, h=0.35, n=4, K=400, long=True, runs=640, massdiag=[0.5, 2.0], massfull=None))
+    longs.append(dict(trunc, sampler="RWMH", h=1.0, vector=[0.5, 1.2], K=400, long=True, runs=640))
+    return cfgs + longs
 
 
-def run_soak(rnd, thorough, seed):
+def run_soak(rnd, thorough, seed, cfgs=None):
     import multiprocessing as mp
 
-    cfgs = soak_configs(rnd, thorough)
+    cfgs = soak_configs(rnd, thorough) if cfgs is None else cfgs
     nruns = 6000 if thorough else 1600
     chunks = 16
     per = nruns // chunks
     so = Suite("C04.moments", f"the statement's own experiment: {per * chunks} independent short runs per configuration from exact draws of the target "
                "(Gaussian diag/full, Laplace, 2-component mixture, box-truncated Gaussian) x (lf,3s,4s) x (Unit,Diagonal,Full) x randomise on/off, RWMH "
-               "scalar/vector; first and second moments of the last state vs closed forms, |z| < 6 (Bonferroni-safe); supporting evidence, not a proof; "
+               "scalar/vector; first and second moments of the last state (thorough: also of all 400 states of 640 long runs per configuration) vs closed forms, |z| < 6 (Bonferroni-safe); supporting evidence, not a proof; "
                "non-trivial = all configurations")
     findings = []
     ctx = mp.get_context("fork")
     with ctx.Pool(16) as pool:
         for ci, cfg in enumerate(cfgs):
-            jobs = [(cfg, per, 1000003 * seed + 7919 * ci + j) for j in range(chunks)]
+            per_c = max(1, cfg.get("runs", per * chunks) // chunks)
+            jobs = [(cfg, per_c, 1000003 * seed + 7919 * ci + j) for j in range(chunks)]
             outs = pool.map(soak_worker, jobs)
             X = np.vstack(outs)
             mean, m2, sd1, sd2 = analytic_moments(cfg)
             N = X.shape[0]
-            z1 = (X.mean(0) - mean) / (sd1 / math.sqrt(N))
-            z2 = ((X ** 2).mean(0) - m2) / (sd2 / math.sqrt(N))
+            if cfg.get("long"):
+                dd = X.shape[1] // 2
+                z1 = (X[:, :dd].mean(0) - mean) / (X[:, :dd].std(0, ddof=1) / math.sqrt(N))
+                z2 = (X[:, dd:].mean(0) - m2) / (X[:, dd:].std(0, ddof=1) / math.sqrt(N))
+            else:
+                z1 = (X.mean(0) - mean) / (sd1 / math.sqrt(N))
+                z2 = ((X ** 2).mean(0) - m2) / (sd2 / math.sqrt(N))
             stim = {k: v for k, v in cfg.items() if k not in ("massdiag", "massfull")}
             so.case(stim, sample={"config": stim, "z_mean": z1.tolist(), "z_second": z2.tolist()} if len(so.samples) < 3 else None)
             so.count(f"target={cfg['target']}")
@@ -321,8 +346,38 @@ def run(tier, seed):
 
 
 def search(tier, seed, broken):
-    """an obligation broke: run the statement's experiment at full size"""
+    """an obligation broke: first the statement's experiment focused on the configurations whose transitions disagreed (longer chains, larger
+    steps: more wall contacts and more accumulated bias), then the experiment at full size"""
     rnd = random.Random(seed + 4)
+    focus = []
+    seen = set()
+    for s_ in broken:
+        for dis in s_.disagreements:
+            st_ = (dis or {}).get("stimulus") or {}
+            if st_.get("sampler") == "HMC":
+                key = (st_.get("integrator"), (st_.get("mass") or {}).get("mass"), bool((st_.get("target") or {}).get("lb") or (st_.get("target") or {}).get("ub")))
+            elif st_.get("sampler") == "RWMH":
+                key = ("rwmh", None, bool((st_.get("target") or {}).get("lb") or (st_.get("target") or {}).get("ub")))
+            else:
+                continue
+            if key in seen:
+                continue
+            seen.add(key)
+            tgs = [{"target": "truncated", "mu": [0.2, -0.3], "var": [1.0, 0.5], "lo": [-1.0, -1.0], "hi": [1.5, 0.8]}] if key[2] else \
+                  [{"target": "gaussian", "mu": [0.5, -1.0], "cov": [[1.0, 0.6], [0.6, 2.0]]}, {"target": "laplace", "mu": [0.3, -0.5], "b": [1.0, 0.5]}]
+            for tg in tgs:
+                if key[0] == "rwmh":
+                    focus.append(dict(tg, sampler="RWMH", h=1.0, vector=[0.5, 1.2], K=400, long=True, runs=640))
+                else:
+                    mass = key[1] if not (tg["target"] == "truncated" and key[1] == "full") else "diag"
+                    for h, n in ((0.35, 4), (0.9, 6)):
+                        focus.append(dict(tg, sampler="HMC", integrator=key[0], mass=mass, randomize=False, h=h, n=n, K=400, long=True, runs=640,
+                                          massdiag=[0.5, 2.0], massfull=(np.eye(2) * 1.5 + 0.4).tolist()))
+    found = []
+    if focus:
+        _, found = run_soak(rnd, True, seed + 2, cfgs=focus[:8])
+    if found:
+        return found
     _, f = run_soak(rnd, True, seed + 1)
     return f
 
